@@ -43,6 +43,9 @@ static Outcome exec(const Case &c, const HCfg &h, Fault f, bool with_recovery) {
     hh.fail = 0;
     hh.apply_global(w);
     IfCfg ic = hh.ifcfg();
+    // When the MTU cannot be obtained the daemons size their receive buffer with the same fallback (1500) the core uses (linux-main.c:177-191); a buffer smaller
+    // than that next to a failing MTU getter is not a situation a port can produce.
+    if ((getter_mask & VF_MTU) || nth_bit == VF_MTU) ic.rx_capacity = std::max<size_t>(ic.mtu, 1500);
     int P = w.add_if(ic), F = w.add_if(ic);
     w.ctx(P)->fail = getter_mask & 0xFFFF;
     w.ctx(P)->fail_style = f.kind == 8 ? 1 : f.kind == 9 ? 2 : 0;   // 8: the failing getters scribble over their output before they report the error; 9: the MTU getter "succeeds" with 0
@@ -67,7 +70,8 @@ static Outcome exec(const Case &c, const HCfg &h, Fault f, bool with_recovery) {
         if (b.frame.size() > h.mtu) b.frame.resize(h.mtu);
         uint64_t hits_before = vp_alloc_failed() + vp_send_refused();
         uint32_t calls_before = w.ctx(P)->calls_mask | vp_global()->calls_mask;
-        std::vector<Ev> evs = w.deliver(P, b.frame);
+        // an Emit whose count exceeds what it carries arrives as the daemons deliver it: in a buffer of exactly MTU octets
+        std::vector<Ev> evs = w.deliver(P, b.frame, (op.kind == K_EMIT && op.arg(2, -1) >= 0) ? DAEMON : CLEAN);
         if (o.first_hit < 0 && (vp_alloc_failed() + vp_send_refused() > hits_before || (((w.ctx(P)->calls_mask | vp_global()->calls_mask) & ~calls_before) & getter_mask) ||
                                 (nth_bit && w.ctx(P)->fail_nth == 0))) o.first_hit = (long)i;
         if (o.first_hit == (long)i || (o.first_hit >= 0 && (f.kind == 2 || f.kind == 4 || f.kind == 5 || f.kind == 7 || f.kind == 8 || f.kind == 9))) o.faulted_steps.insert(i);
@@ -188,19 +192,22 @@ static Verdict run(const Case &c) {
     Outcome o = exec(c, h, f, true);
     if (!o.err.empty()) { v.fail(o.err); return v; }
     size_t total_free = 0;
+    const bool mtu_fault = ((f.kind == 5 || f.kind == 8) && ((uint32_t)f.arg & VF_MTU)) || f.kind == 9 || (f.kind == 6 && ((f.arg >> 8) & 15) == 0);
+    const size_t eff_mtu = mtu_fault ? std::max<size_t>(h.mtu, 1500) : h.mtu;
     for (size_t i = 0; i < o.per_step.size() && v.ok; i++) {
         size_t nf = sends_only(free_run.per_step[i]).size(), nx = 0;
         for (auto &e : o.per_step[i]) if (e.kind != VE_SLEEP) nx++;     // attempts (sent or refused)
         total_free += nf;
         if (o.first_hit < 0 || (long)i < o.first_hit) {
             if (!(o.per_step[i] == free_run.per_step[i])) v.fail(fmt("step %zu: trace differs from the fault-free run although the fault has not been hit yet", i));
-        } else if ((long)i == o.first_hit) {
+        } else if ((long)i == o.first_hit && !mtu_fault) {
             // the affected request is answered partially or not at all
             if (nx > nf) v.fail(fmt("step %zu: %zu transmissions attempted for the request hit by the fault, %zu without the fault", i, nx, nf));
         } else if (i < o.frames.size() && !o.frames[i].empty()) {
             // later requests run on whatever state the degraded request left behind: they must still be solicited and within budget
-            Budget b = budget_for(o.frames[i], h.mtu);
-            if (o.frames[i][17] == OP_EMIT && o.frames[i][15] == 0) b.probes = (int)std::min<size_t>(get16(o.frames[i].data() + 32), (h.mtu - 34) / 14);
+            // (a responder that cannot learn the MTU works with 1500, as the daemons do for their buffers: its bounds are those of a 1500-octet interface)
+            Budget b = budget_for(o.frames[i], eff_mtu);
+            if (o.frames[i][17] == OP_EMIT && o.frames[i][15] == 0) b.probes = (int)std::min<size_t>(get16(o.frames[i].data() + 32), (eff_mtu - 34) / 14);
             std::vector<Ev> attempts;
             for (auto e : o.per_step[i]) { if (e.kind == VE_SEND_REFUSED) e.kind = VE_SEND; attempts.push_back(e); }
             std::string e = check_budget(attempts, b);
@@ -260,6 +267,8 @@ static std::vector<Case> corpus() {
         v.push_back(mk(K_QUERY, {-1, 6})); v.push_back(mk(K_QUERY, {-1, 7})); v.push_back(mk(K_QUERY, {-1, 8}));
         add(base(0, 576), v);
     }
+    add(base(0, 1500), {disc, mk(K_EMIT, {-1, 5, 0xFFFF}, d3), mk(K_EMIT, {-1, 6, 200}, d3)});   // declared counts far beyond what the frame (or any frame) carries - bounded by the MTU, or by 1500 when the MTU cannot be obtained
+    add(base(0, 576), {disc, mk(K_EMIT, {-1, 5, 105}, d3)});
     Op disc1 = mk(K_DISCOVER, {1, 0, 2, 3, 0, 0, -1});
     add(base(0, 1500), {disc, disc, disc1, mk(K_QUERY, {-1, 4}), disc, disc1});                       // a second station knocks while the first is the mapper
     add(base(1, 600), {disc, mk(K_QLT, {-1, 7, 0x0E, 0, 0}), mk(K_QLT, {-1, 8, 0x0E, 566, 0})});    // multi-frame icon at a non-1500 MTU
